@@ -25,3 +25,4 @@ import NetflowModel.Props.C16
 import NetflowModel.Props.C16b
 import NetflowModel.Props.C17
 import NetflowModel.Props.C17b
+import NetflowModel.Props.H1
